@@ -1,6 +1,7 @@
 package sender
 
 import (
+	"fmt"
 	"io"
 	"path/filepath"
 	"strings"
@@ -47,6 +48,11 @@ func RecvFilterList(c *rsyncwire.Conn) (*filterRuleList, error) {
 		}
 		if length == exclusionListEnd {
 			break
+		}
+		// rsync/exclude.c:recv_filter_list rejects rules of MAXPATHLEN+3 or more bytes
+		const maxRuleLen = 4096 + 3
+		if length < 0 || length >= maxRuleLen {
+			return nil, fmt.Errorf("protocol error: invalid filter rule length %d", length)
 		}
 		line := make([]byte, length)
 		if _, err := io.ReadFull(c.Reader, line); err != nil {
